@@ -208,6 +208,14 @@ def spread_check(reported, ld, est, use, kap, case, key, info):
     with np.errstate(all="ignore"):
         good = use & np.isfinite(ld) & np.isfinite(est) & (est <= FD_EST_MAX)
         good &= np.isfinite(reported) & np.isfinite(kap)
+        # Ill-conditioned points (relative distance to a singular bound below
+        # ~1e-9): the noise of a finite difference is eps*kappa*|x|/h, far
+        # above the representation error eps*kappa of the reported value, so
+        # the finite-difference oracle cannot resolve them (found as a false
+        # alarm of 1.1e-2 at 1e-12*range from a logit bound behind a cubic
+        # pre-rescaling).  They are still covered by the round-trip and the
+        # log_J + log_J_inv clauses.
+        good &= (16.0 * EPS * kap) <= 1e-6
     info["fd_points"] = info.get("fd_points", 0) + int(good.sum())
     info["fd_unresolved"] = info.get("fd_unresolved", 0) + int(
         (use & ~good).sum()
